@@ -843,6 +843,50 @@ struct Extractor {
       }
       O << ']';
     }
+    // constexpr static data members holding a table of function pointers: the evaluated cells
+    O << "},\"ptabs\":{";
+    first = true;
+    seen.clear();
+    for (auto *D : R->decls()) {
+      auto *V = dyn_cast<VarDecl>(D);
+      if (!V || !V->isStaticDataMember() || V->isTemplated() || !V->isConstexpr() || !V->getAnyInitializer()) continue;
+      if (V->getAnyInitializer()->isValueDependent()) continue;
+      const APValue *AV = V->evaluateValue();
+      if (!AV) continue;
+      const APValue *Arr = nullptr;
+      if (AV->isArray()) Arr = AV;
+      else if (AV->isStruct() && AV->getStructNumFields() >= 1 && AV->getStructField(0).isArray()) Arr = &AV->getStructField(0);
+      if (!Arr) continue;
+      bool anyfn = false;
+      std::string buf; llvm::raw_string_ostream B(buf);
+      unsigned n = Arr->getArraySize(), ni = Arr->getArrayInitializedElts();
+      for (unsigned k = 0; k < n; k++) {
+        if (k) B << ',';
+        const APValue &E = k < ni ? Arr->getArrayInitializedElt(k) : Arr->getArrayFiller();
+        if (E.isLValue() && E.getLValueBase() && E.getLValueBase().dyn_cast<const ValueDecl *>()) {
+          const ValueDecl *VD = E.getLValueBase().dyn_cast<const ValueDecl *>();
+          if (auto *FD = dyn_cast<FunctionDecl>(VD)) {
+            anyfn = true;
+            B << "{\"n\":"; jstr(B, FD->getDeclName().isIdentifier() ? FD->getName() : llvm::StringRef(FD->getNameAsString()));
+            B << ",\"fq\":" << S.get(fullName(FD));
+            if (auto *M = dyn_cast<CXXMethodDecl>(FD)) B << ",\"pt\":" << ty(C.getRecordType(M->getParent()));
+            if (auto *TA = FD->getTemplateSpecializationArgs()) {
+              B << ",\"ta\":[";
+              bool f2 = true;
+              for (auto &a : TA->asArray()) { if (a.getKind() != TemplateArgument::Type) continue; if (!f2) B << ','; f2 = false; B << ty(a.getAsType()); }
+              B << ']';
+            }
+            B << '}';
+          } else B << "\"?\"";
+        } else if (E.isLValue() && E.isNullPointer()) B << "null";
+        else if (E.isLValue() && !E.getLValueBase()) B << "null";
+        else B << "\"?\"";
+      }
+      if (!anyfn) continue;
+      if (!seen.insert(V->getNameAsString()).second) continue;
+      if (!first) O << ','; first = false;
+      jstr(O, V->getName()); O << ":[" << B.str() << ']';
+    }
     O << "},\"methods\":[";
     first = true;
     seen.clear();
